@@ -37,7 +37,12 @@ META = {
 }
 
 T0 = 1000000          # tv_sec of the virtual clock at the start of a run (dsched), = 15625 * 64
-AIMED_ADV = [1, 63, 64, 65, 127, 128, 129, 200, 64 * 65536, 64 * 65535, 64 * 65536 + 128, 64 * (65536 - 15625)]
+# virtual clock: tv_sec starts at T0 (unit 15625).  TO_U65535 / TO_U65534 bring it 10 s into the time unit whose 16-bit
+# stamp is 65535 / 65534 (the last units before the stamp wraps to 0)
+TO_U65535 = 65535 * 64 + 10 - T0
+TO_U65534 = 65534 * 64 + 10 - T0
+AIMED_ADV = [1, 63, 64, 65, 127, 128, 129, 200, 64 * 65536, 64 * 65535, 64 * 65536 + 128, 64 * (65536 - 15625),
+             TO_U65535, TO_U65534, 55, 94]
 
 
 def bits_of(block):
@@ -146,10 +151,21 @@ DIRECTED = [
     ("d1", [["E0", "A%d" % (64 * (65536 - 15625)), "E1"], ["A128", "C", "E2"]]),
     ("d2", [["F1-4", "C"], ["L0-3", "A128", "C"]]),
     ("d1", [["E1", "C"], ["E0", "A128", "E2", "C"]]),
+    # 16-bit stamp wrap: a table retired in unit 65535 must survive gc()/growth 1 s, 40 s, 63 s into unit 0 (stamp
+    # distance 1 across the wrap), with a reader still holding the old snapshot; controls 65534->65535 and 65535->1
+    ("d1", [["A%d" % TO_U65535, "E0", "S", "E1", "A55", "C", "G0", "E2", "G0"]]),
+    ("d1", [["A%d" % TO_U65535, "E0", "S", "E1", "A94", "E2", "G0", "C", "G0"]]),
+    ("d1", [["A%d" % TO_U65535, "E0", "S", "E1", "A117", "C", "G0", "A11", "C", "G0"]]),
+    ("d1", [["A%d" % TO_U65535, "E0", "E1", "A55", "C", "E2"], ["S", "G0", "G0"]]),
+    ("s2", [["A%d" % TO_U65535, "E1", "E3", "A94", "E5", "C"], ["S", "G1", "C", "G1"]]),
+    ("d1", [["A%d" % TO_U65534, "E0", "S", "E1", "A64", "C", "G0", "E2", "G0"]]),
+    ("d1", [["A%d" % TO_U65535, "E0", "S", "E1", "A119", "C", "G0"]]),
 ]
 
 
 def directed_schedules(nt, K):
+    if nt == 1:
+        return [[0]]
     out = []
     for first in range(nt):
         for k1 in range(K):
@@ -297,7 +313,8 @@ def main(argv):
     chk.cov["rule"] = ("case = (block size static/dynamic, client program, schedule); small programs: seeded random mixes of "
                        "ensure/reserve/[]/size/snapshot/snapshot[]/for_each/fill_n/copy_n/gc/advance over 2-3 threads, block "
                        "sizes 1,2,4 (hints 1,2,3); directed programs aimed at growth-vs-growth races, retire-vs-retire across a "
-                       "64 s unit boundary, gc at 127/128 s, 16-bit stamp wrap, each run under every schedule with <= 2 "
+                       "64 s unit boundary, gc at 127/128 s, 16-bit stamp wrap (retirement in stamp unit 65535, gc/growth 1/40/63 s "
+                       "into unit 0 with a reader holding the old snapshot; controls 65534->65535, 65535->1), each run under every schedule with <= 2 "
                        "pre-emptions in the first 9 scheduling points plus random ones; big programs: 2-5 threads, <= 8 ops, "
                        "block sizes 1..8, clock advances from the aimed set {1,63,64,65,127,128,129,200,2^16 units +-}; "
                        "strategies uniform random, round-robin with random pre-emption, PCT; distinct non-trivial = distinct "
